@@ -1,3 +1,4 @@
+import BumpVerif.Proofs.VecNth
 import BumpVerif.Proofs.VecCore
 import BumpVerif.Proofs.VecFilter
 import BumpVerif.Proofs.VecDrain
@@ -449,3 +450,7 @@ end Bump.V.C13
 #print axioms Bump.V.C13.C13_into_boxed_slice
 #print axioms Bump.V.C13.C13_vec_macro_n
 #print axioms Bump.V.C13.C13_vec_macro_list
+-- `into_iter().nth(n)` (core's default `Iterator::nth` on the owning iterator), Proofs/VecNth.lean
+#print axioms Bump.V.intoIterNthOp_result
+#print axioms Bump.V.intoIterNthOp_result_any
+#print axioms Bump.V.intoIterNthOp_noUB
